@@ -206,6 +206,18 @@ func judgeEvents(r *Run, w *World, e *Engine) {
 				}
 			}
 		}
+		// an initialisation run inline by an invocation belongs to that invocation: its start line follows
+		if phase == "invoke" {
+			for k := j + 1; k < len(evs); k++ {
+				if evs[k].Kind == "InvokeStart" {
+					r.Probe("inline-init-followed-by-start")
+					break
+				}
+				if evs[k].Kind == "InitStart" || evs[k].Kind == "InvokeRuntimeDone" {
+					r.Failf("C15.invoke-start", "initialisation #%d ran inside an invocation (phase invoke, report at step %d) but no invoke-start follows it before the %s at step %d", nInit, report.Step, evs[k].Kind, evs[k].Step)
+				}
+			}
+		}
 		i = j + 1
 	}
 	// --- invocations ---
